@@ -787,7 +787,7 @@ def p_C07(ctx):
     locs = []
     for loc in ("PENINSULA", "BALEARES", "CANARIAS", "CEUTAMELILLA"):
         for r1 in (None, [501, 601, 701]):
-            for r2 in (None, [502, 602, 702]):
+            for r2 in (None, [502, 602, 702], [0, 0, 0]):
                 fac = {"mode": "loc", "loc": loc}
                 if r1:
                     fac["red1"] = r1
@@ -1224,6 +1224,9 @@ def p_C18(ctx):
     # three-decimal values exercise the rounding of the printed form
     three = [{"src": {"text": "0, CONSUMO, ILU, ELECTRICIDAD, 1.005, 0.125\n0, PRODUCCION, EL_INSITU, 2.675, 0.004\n1, CONSUMO, ACS, EAMBIENTE, 3.333, 1.115\nDEMANDA, ACS, 4.445, 1.005"},
               "fac": {"mode": "file", "path": REPO + "/test_data/factores_paso_test.csv"}, "kexp": [1, 2], "area": [1, 1], "lm": False}]
+    # negative values (energy absorbed: SALIDA and DEMANDA of REF), among them values between -1 and 0
+    three.append({"src": {"text": "2, CONSUMO, REF, ELECTRICIDAD, 1.50, 0.30, 2.00\n2, SALIDA, REF, -0.40, -12.50, -0.05\n2, CONSUMO, CAL, ELECTRICIDAD, 0.50, 0.00, 1.00\n2, SALIDA, CAL, 0.75, 0.00, 3.10\n2, AUX, 0.20, 0.10, 0.30\nDEMANDA, REF, -0.45, -3.00, -0.99\nDEMANDA, CAL, 0.70, 0.00, 2.90"},
+                  "fac": {"mode": "loc", "loc": "PENINSULA"}, "kexp": [1, 2], "area": [1, 1], "lm": False})
     ctx.replay(rt(three), "three-decimals", "Trace_C18")
     # --- the metadata store (spec/MetaStore.tla): every behaviour TLC enumerates - load a text, set_meta, save + reload -
     # is made on a real Components and a real Factors value; Trace_Meta carries the store of the specification
